@@ -54,6 +54,10 @@ func checkC01(c *Ctx) *report.Result {
 	// memory cell it accesses: those clauses are decided by the rule sets of C02 / C03, evaluated here
 	r.Rule("F-cond", "conditional opcodes test their documented condition (rule L-cond of C02, evaluated on this tree)")
 	r.Rule("F-mem", "data accesses go to the documented address class with the documented byte order and read-modify-write data flow (rules M-sched, M-order, M-rmw of C03, evaluated on this tree)")
+	r.Rule("F-alu", "arithmetic results as linear forms over the input registers, for all values at once: ADD/ADC/SUB/SBC A,x = A +- x +- carry (mod 256) for all nine operand forms; INC/DEC r and (HL); INC/DEC rr incl. the carry into the high byte; ADD HL,rr low byte and (with L=00) high byte; JR e / JR cc,e target PC+1+sext(e) for e in 00-7F, 80, 81-FF; ADD SP,e; LD HL,SP+e low byte")
+	c.checkALU(r, m)
+	r.Rule("F-daa", "DAA: for every N, H, C, low nibble of A and high-nibble class (0-8, 9, A-F) the adjusted A is A + adjustment (mod 256) as a linear form in the high nibble, with the documented adjustment (06 / 60 / 66 / -06 / -60 / -66 / 0), carry, H = 0, N unchanged, and Z where it is determined")
+	c.checkDAA(r, m)
 	adopt(r, c.sibling("C02"), map[string]string{"L-cond": "F-cond"}, "an instruction that tests the wrong flag has the wrong effect on PC/SP/memory for some flag state")
 	adopt(r, c.sibling("C03"), map[string]string{"M-sched": "F-mem", "M-order": "F-mem", "M-rmw": "F-mem"}, "an access to the wrong address or with swapped bytes changes the wrong memory cell")
 	r.Rule("F-carry", "half-carry and carry/borrow at their thresholds (constants and intervals on both sides) for ADD/ADC/SUB/SBC/CP A,r, INC/DEC r, ADD HL,rr, ADD SP,e and LD HL,SP+e")
